@@ -307,9 +307,14 @@ class Parameter(Term):
 
     def get_sql(self, ctx: SqlContext) -> str:
         if self._placeholder:
-            return self._placeholder
-
-        return self.IDX_PLACEHOLDERS.get(ctx.dialect, lambda _: self.DEFAULT_PLACEHOLDER)(self._idx)
+            sql = self._placeholder
+        else:
+            sql = self.IDX_PLACEHOLDERS.get(ctx.dialect, lambda _: self.DEFAULT_PLACEHOLDER)(
+                self._idx
+            )
+        if ctx.with_alias:
+            return format_alias_sql(sql, getattr(self, "alias", None), ctx)
+        return sql
 
 
 class Parameterizer:
@@ -376,7 +381,10 @@ class Negative(Term):
         if compound or term_sql.startswith("-"):
             # -(a+b) is not -a+b, and "--" would start a comment
             term_sql = "({})".format(term_sql)
-        return "-{term}".format(term=term_sql)
+        sql = "-{term}".format(term=term_sql)
+        if ctx.with_alias:
+            return format_alias_sql(sql, self.alias, ctx)
+        return sql
 
 
 class ValueWrapper(Term):
@@ -572,7 +580,10 @@ class Values(Term):
         self.field = self.field.replace_table(current_table, new_table)
 
     def get_sql(self, ctx: SqlContext) -> str:
-        return "VALUES({value})".format(value=self.field.get_sql(ctx))
+        sql = "VALUES({value})".format(value=self.field.get_sql(ctx.copy(with_alias=False)))
+        if ctx.with_alias:
+            return format_alias_sql(sql, self.alias, ctx)
+        return sql
 
 
 class LiteralValue(Term):
@@ -1132,7 +1143,10 @@ class ComplexCriterion(BasicCriterion):
         )
 
         if ctx.subcriterion:
-            return "({criterion})".format(criterion=sql)
+            sql = "({criterion})".format(criterion=sql)
+
+        if ctx.with_alias:
+            return format_alias_sql(sql, self.alias, ctx)
 
         return sql
 
@@ -1855,6 +1869,8 @@ class PseudoColumn(Term):
         self.name = name
 
     def get_sql(self, ctx: SqlContext) -> str:
+        if ctx.with_alias:
+            return format_alias_sql(self.name, self.alias, ctx)
         return self.name
 
 
